@@ -26,14 +26,14 @@ DEFAULTS = [
     ("listenum", "[Kind]", "[A, B]"), ("liststr", "[String!]!", '["a", "b"]'),
     ("obj", "Leaf", '{v: 1, s: "a"}'), ("objempty", "Leaf", "{}"), ("objenum", "WithEnum", "{k: B}"), ("objlist", "WithList", "{xs: [1, 2]}"),
     ("objobj", "Outer", "{leaf: {v: 2}}"), ("listobj", "[Leaf]", '[{v: 1}, {s: "z"}]'), ("nonnull", "Int!", "7"), ("id", "ID", '"abc"'), ("idint", "ID", "5"),
-    ("blobobj", "Blob", "{a: 1}"), ("objwithdefaults", "Inner", "{}"),
+    ("blobobj", "Blob", "{a: 1}"), ("objwithdefaults", "Inner", "{}"), ("enumsoftkw", "Soft", "type"), ("listenumsoftkw", "[Soft!]", "[match, case]"), ("nonnullenum", "Kind!", "A"),
 ]
 FIELD_NAMES = ["class", "from", "in", "None", "camelCase", "PascalCase", "snake_case", "HTTPCode", "a1B2", "_lead", "trail_", "copy", "json", "dict", "model_config",
                "model_fields", "schema", "construct", "validate", "id", "type", "match", "self", "cls", "Field", "Optional", "List", "Any", "BaseModel", "Kind", "x__y"]
 
 
 def build_schema_text():
-    parts = ["enum Kind { A B in }", "scalar Blob", "input Leaf { v: Int s: String }", "input WithEnum { k: Kind }", "input WithList { xs: [Int!] }",
+    parts = ["enum Kind { A B in }", "enum Soft { type match case }", "scalar Blob", "input Leaf { v: Int s: String }", "input WithEnum { k: Kind }", "input WithList { xs: [Int!] }",
              "input Outer { leaf: Leaf }", "input Inner { a: Int = 1 k: Kind = A }", "input Rec { id: ID! next: Rec kids: [Rec!] }",
              "input Mixed { req: String! opt: Int kind: Kind! leaf: Leaf leaves: [Leaf!] }"]
     names = ["Rec", "Mixed", "Inner"]
@@ -45,6 +45,10 @@ def build_schema_text():
     for dn, t, lit in DEFAULTS:
         n = f"D_{dn}"
         parts.append(f"input {n} {{ f: {t} = {lit} other: Int }}")
+        names.append(n)
+    for dn, t, lit in DEFAULTS:
+        n = f"DC_{dn}"
+        parts.append(f"input {n} {{ camelCaseField: {t} = {lit} other: Int }}")
         names.append(n)
     for i, fn in enumerate(FIELD_NAMES):
         n = f"N_{i}"
@@ -91,6 +95,8 @@ def drop_nulls(v):
 def evaluate(case):
     import pydantic
     name, options = case
+    options = dict(options)
+    via_introspection = options.pop("__introspection__", False)
     schema = get_schema()
     t = schema.type_map[name]
     out = {"status": "ok", "evals": 0, "problems": [], "outcomes": set()}
@@ -98,6 +104,9 @@ def evaluate(case):
     q = f"query Q($x: {name}) {{ g_{name}(x: $x) }}\n"
     with genpkg.scratch() as d:
         try:
+            if via_introspection:
+                genpkg.serve_introspection(SCHEMA_TEXT)
+                options["remote_schema_url"] = "http://verif.invalid/graphql"
             pkg, pdir, _ = genpkg.generate(d, SCHEMA_TEXT, q, dict({"include_all_inputs": False, "include_all_enums": False}, **options))
             mod, mods = genpkg.import_package(d, pkg)
         except genpkg.GenError as e:
@@ -203,6 +212,9 @@ def case_features(name):
         f |= {f"kind:{k}", f"shape:{corpus.SHAPES[int(i)]}"}
     elif name.startswith("D_"):
         f.add(f"default:{name[2:]}")
+    elif name.startswith("DC_"):
+        f.add(f"default:{name[3:]}")
+        f.add("aliased_field")
     elif name.startswith("N_"):
         f.add(f"fieldname:{FIELD_NAMES[int(name[2:])]}")
     else:
@@ -232,12 +244,15 @@ def main(tier):
     cases = [(n, {}) for n in INPUT_NAMES]
     extra = [n for n in INPUT_NAMES if n.startswith("N_") or n in ("Mixed", "Rec") or n.startswith("D_")]
     cases += [(n, {"convert_to_snake_case": False}) for n in (extra if tier == "quick" else INPUT_NAMES)]
+    # the same input types through the introspection source (defaults are known to be lost there: C19; so only types without defaults)
+    intro = [n for n in INPUT_NAMES if n.startswith(("S_", "N_")) or n in ("Mixed", "Rec")]
+    cases += [(n, {"__introspection__": True}) for n in (intro if tier != "quick" else intro[::3])]
     results = pool.run_cases(evaluate, cases, timeout=300, progress=200)
     evals = 0
     outcomes = set()
     distinct = 0
     for (name, opts), (st, r) in zip(cases, results):
-        feats = case_features(name) | {f"cfg:{k}={v}" for k, v in opts.items()}
+        feats = case_features(name) | {f"cfg:{k}={v}" for k, v in opts.items() if not k.startswith("__")} | ({"source:introspection"} if opts.get("__introspection__") else set())
         desc = {"input_type": name, "options": opts, "definition": next(l for l in SCHEMA_TEXT.splitlines() if l.startswith(f"input {name} "))}
         if rep.triage:
             rep.seen(feats)
